@@ -58,7 +58,7 @@ HTML_BLOCKS = [
     (1, ['<pre\tclass="x">', '', 'a', '</pre>']), (1, ['<SCRIPT>', '', 'a', '</SCRIPT>']), (1, ['<Pre>', '', '*x*', '</PRE>']), (6, ['<DIV>', 'y', '</DIV>']), (1, ['<STYLE>', '', 'p{}', '</style>']),
 ]
 MARKER_LIKE = ['> q', '# h', '- l', '+ p', '1. x', '2) y', '***', '---', '[a]: b', '===', '>']
-EXACT_LABELS = ['a\\]b', 'x\\\ny', 'p\\[q\\]', 'two\nlines', 'back\\\\slash']
+EXACT_LABELS = ['a\\]b', 'x\\\ny', 'p\\[q\\]', 'two\nlines', 'back\\\\slash', 'foo\\] bar\nbaz', 'm\\[n\no\\]']
 LABELS = ['foo', 'bar', 'Baz', 'long label', 'x1', 'ẞtraße', 'Σίσυφος', 'mixed Case Label', 'q']
 
 
@@ -169,8 +169,11 @@ def gen_inlines(c, depth=0, allow_link=True, allow_break=True, n=None, allow_htm
             elif allow_break and k < 15:
                 out.append(N('soft', indent=0 if c.canonical else t.weighted([(4, 0), (1, 1), (1, 3), (1, 5)])))
             elif allow_break and k < 22:
-                out.append(N('hard', style=t.choice(['  ', '   ', '\\']) if not c.canonical else t.choice(['  ', '\\']),
-                             indent=0 if c.canonical else t.weighted([(4, 0), (1, 2)])))
+                style = t.choice(['  ', '   ', '\\']) if not c.canonical else t.choice(['  ', '\\'])
+                if style != '\\' and out and out[-1].kind == 'text' and 'backslash_break' not in c.exclude and t.chance(50):
+                    # a literal backslash directly before a hard break made of spaces
+                    out[-1] = N('text', s=out[-1].s + '\\')
+                out.append(N('hard', style=style, indent=0 if c.canonical else t.weighted([(4, 0), (1, 2)])))
             elif _can_glue(items[i - 1], it) and not c.canonical and t.chance(45):
                 pass                     # no space between the two items
             else:
